@@ -75,7 +75,7 @@ def gen_source(rng, size=None):
         if k < 0.30:
             # repeated identical lines
             o = rng.choice(["INC(%s, %d)" % (reg(), rng.randrange(1, 5)), "DEC(%s, 1)" % reg(),
-                            "ADD(R1, R1, R1)", "LSL(R2, R2)", "NOP()"])
+                            "ADD(R1, R1, R1)", "LSL(R2, R2)", "NOP()", "NOP()", "CON()", "CBON()", "COFF()", "CCBOFF()"])
             return [o] * rng.choice([2, 3])
         if k < 0.45:
             return ["%s(%s, %s, %s)" % (rng.choice(["ADD", "SUB", "MUL", "AND", "OR", "XOR"]), reg(), reg(), reg())]
@@ -488,6 +488,10 @@ def interpreter_run(text, opts, budget=5.0):
                 rc.with_budget(lambda: vm.run(program), budget)
             except rc.Budget:
                 return {"raise": "Budget"}
+            except SystemExit:
+                return {"raise": "SystemExit"}
+            except Exception as e:  # noqa
+                return {"raise": "%s: %s" % (type(e).__name__, e)}
     finally:
         ut.print_message = old
     d = snapshot_vm(vm, out.getvalue(), err.getvalue())
